@@ -8,6 +8,7 @@
 //@check wide_integers_and_all_bounds serves=C14,C12,C01,C10 fn=PointCloudWriter::add_point,BitPack::unpack_ints,BitPack::unpack_scaled_ints,integer_bits,serialize_integer note="BOUNDED: spherical coordinates (f64) + row / column / return index records with ranges 0..=i64::MAX, i64::MIN..=i64::MAX, -10..=i64::MAX + a ScaledInteger intensity over -2^62..=2^62; 9 points with values at both ends of every range, 2^53+1 and neighbours; spherical and index bounds exact over the points; raw read-back exact"
 //@check point_counts_around_packet_capacity serves=C01,C02 fn=PointCloudWriter::{add_point,write_buffer_to_disk,finalize,get_max_packet_points} note="BOUNDED: prototype 3 x f32 + 11-bit integer (packets hold ~4861 points) with every point count 4850..=4870 and 9715..=9730, and 3 x 19-bit scaled integers with 9120..=9130: counts that are exact multiples of the packet capacity, one less, one more (last partial flush with an empty point buffer); raw read-back exact"
 //@check degenerate_prototypes_are_rejected_or_work serves=C10,C14,C09 fn=PointCloudWriter::{new,validate_prototype,add_point,finalize},get_max_packet_points note="BOUNDED: prototypes of X,Y,Z plus 10 / 5000 / 5300 / 6000 / 21674 / 21700 / 40000 double extension records (around the two limits: one point per packet, more bits than a packet holds, more records than the packet header table holds) and 9 prototypes with a duplicated record name (same type, other type, flag attributes): add_pointcloud / add_point / finalize return within 120 s (watchdog) without a panic; an accepted prototype round-trips its points; when add_point is rejected the stored bounds stay those of the accepted points"
+//@check constant_records_have_bounds serves=C14 fn=PointCloudWriter::{add_point,finalize} note="BOUNDED: Cartesian Z, spherical elevation (scaled integers) and row / column / return index records declared with min == max (zero stored bits): after 1 and after 5 points the stored bounds of these attributes are Some(the constant) on both sides, as for every other attribute; the points read back carry the constant"
 //@module
     use crate::{E57Reader, E57Writer, RecordDataType, RecordName, RecordValue};
     use std::io::Cursor;
@@ -332,5 +333,51 @@
             }
             let n = r.pointcloud_raw(&pc).unwrap().filter(|x| x.is_ok()).count() as u64;
             assert_eq!(n, accepted_points, "duplicate name ({what}): points read back");
+        }
+    }
+
+    #[test]
+    fn constant_records_have_bounds() {
+        let konst = |v: i64| RecordDataType::Integer { min: v, max: v };
+        let sconst = |v: i64| RecordDataType::ScaledInteger { min: v, max: v, scale: 0.5, offset: 1.0 };
+        for n in [1usize, 5] {
+            let what = format!("constant records, {n} points");
+            let proto = vec![
+                Record::CARTESIAN_X_F64, Record::CARTESIAN_Y_F64,
+                Record { name: RecordName::CartesianZ, data_type: sconst(9) },
+                Record { name: RecordName::SphericalRange, data_type: RecordDataType::F64 },
+                Record { name: RecordName::SphericalAzimuth, data_type: RecordDataType::F64 },
+                Record { name: RecordName::SphericalElevation, data_type: sconst(-4) },
+                Record { name: RecordName::RowIndex, data_type: konst(3) },
+                Record { name: RecordName::ColumnIndex, data_type: konst(0) },
+                Record { name: RecordName::ReturnIndex, data_type: konst(0) },
+                Record { name: RecordName::ReturnCount, data_type: konst(1) },
+            ];
+            let mut file = Cursor::new(Vec::new());
+            {
+                let mut w = E57Writer::new(&mut file, "guid-file").expect(&what);
+                let mut pcw = w.add_pointcloud("guid-pc", proto).expect(&what);
+                for i in 0..n {
+                    pcw.add_point(vec![RecordValue::Double(i as f64), RecordValue::Double(-(i as f64)), RecordValue::ScaledInteger(9),
+                        RecordValue::Double(1.0 + i as f64), RecordValue::Double(0.25 * i as f64), RecordValue::ScaledInteger(-4),
+                        RecordValue::Integer(3), RecordValue::Integer(0), RecordValue::Integer(0), RecordValue::Integer(1)]).expect(&what);
+                }
+                pcw.finalize().expect(&what);
+                w.finalize().expect(&what);
+            }
+            let mut r = E57Reader::new(Cursor::new(file.into_inner())).expect(&what);
+            let pc = r.pointclouds()[0].clone();
+            let cb = pc.cartesian_bounds.clone().expect(&what);
+            assert_eq!((cb.z_min, cb.z_max), (Some(5.5), Some(5.5)), "{what}: Cartesian Z bounds of a constant record (9 * 0.5 + 1)");
+            assert_eq!((cb.x_min, cb.x_max), (Some(0.0), Some((n - 1) as f64)), "{what}: Cartesian X bounds");
+            let sb = pc.spherical_bounds.clone().expect(&what);
+            assert_eq!((sb.elevation_min, sb.elevation_max), (Some(-1.0), Some(-1.0)), "{what}: elevation bounds of a constant record (-4 * 0.5 + 1)");
+            let ib = pc.index_bounds.clone().expect(&what);
+            assert_eq!((ib.row_min, ib.row_max), (Some(3), Some(3)), "{what}: row bounds of a constant record");
+            assert_eq!((ib.column_min, ib.column_max), (Some(0), Some(0)), "{what}: column bounds of a constant record");
+            assert_eq!((ib.return_min, ib.return_max), (Some(0), Some(0)), "{what}: return bounds of a constant record");
+            let pts: Vec<_> = r.pointcloud_raw(&pc).expect(&what).map(|x| x.expect(&what)).collect();
+            assert_eq!(pts.len(), n, "{what}");
+            assert!(pts.iter().all(|p| p[2] == RecordValue::ScaledInteger(9) && p[6] == RecordValue::Integer(3)), "{what}: constants read back");
         }
     }
